@@ -5,7 +5,13 @@ K1 every string the encoder returns is well formed: each printed token is in \\[
 K2 one tokenizer: the decoder, get_alphabet_from_selfies and selfies_to_encoding all tokenise through the single
    definition of split_selfies; padding length uses the single definition of len_selfies
 K3 the three utilities are pure: no module state is read or written, results are fresh objects
-Not decided: len_selfies(s) == number of items split_selfies(s) yields, and "".join(split_selfies(s)) == s.
+K4 len_selfies, when it is an affine form over character counts, is count('[') + count('.'): one per bracketed symbol plus
+   one per dot of a well-formed string (the number of items the scanner yields, by K5)
+K5 contiguity of the bracket scanner: every iteration yields selfies[left:right+1] starting at the scan position (a '.'
+   exactly when the next character is '.'), and continues right after what it yielded -- so the concatenation of the
+   yielded items is the scanned prefix
+Not decided: an implementation of len_selfies / split_selfies of another shape (a note is printed, no verdict), and the
+set equality of get_alphabet_from_selfies beyond "built from the one tokenizer, dots removed".
 """
 import ast
 
@@ -23,10 +29,12 @@ META = {
                    "shows a single tokenizer definition shared by all consumers; effect analysis shows the utilities are pure.",
     "trusted_base": ["sa.reglang", "builtin effect table"],
     "assumptions": [],
-    "level_text": "Static: language inclusion for printed tokens, structural assembly, single-definition and purity rules.",
-    "level_note": "Claims only 'encoder output is well formed and all consumers share one tokenizer'. The count/scanner agreement "
-                  "(len_selfies vs split_selfies) is value-level and listed as unclaimed.",
-    "technique": "regular-language inclusion + call-graph single-definition rule + effect analysis",
+    "level_text": "Static: language inclusion for printed tokens, structural assembly, single-definition and purity rules, "
+                  "symbolic summaries of len_selfies and of one scanner iteration.",
+    "level_note": "Clause-level: encoder output is well formed, all consumers share one tokenizer, the utilities are pure, "
+                  "len_selfies has the token-count formula and the scanner is contiguous (K4/K5, decided for the affine / "
+                  "find-based shapes; another shape gives a note, not a verdict).",
+    "technique": "regular-language inclusion + call-graph single-definition rule + effect analysis + symbolic path summaries (abstract interpretation)",
 }
 
 SUQ = "selfies.utils.selfies_utils."
